@@ -209,7 +209,7 @@ theorem rts_reencode (raws : List RtRaw) (rts : List Rt) (h : mapM' decodeRt raw
 theorem full_reencode (c : Ctx) (r : BlockRaw) (b : Block) (h : fullFromRaw c r = .value (.ok b)) :
     fullFromRaw c b.toRaw = .value (.ok b) := by
   simp only [fullFromRaw, andThen_eq_ok, liftE_eq_ok, guardV_eq_ok, mapErr_eq_ok, optField_eq_ok] at h
-  obtain ⟨bh, hbh, rtp, hrtp, tp, htp, rip, hrip, ip, hip, rh, hrh, hd, hhd, rts, hrts, u1, h1, u2, h2, u3, h3, uch, huch, eci, heci, hb⟩ := h
+  obtain ⟨bh, hbh, rtp, hrtp, tp, htp, rip, hrip, ip, hip, rh, hrh, hd, hhd, rts, hrts, u1, h1, u2, h2, u4, h4, u3, h3, uch, huch, eci, heci, hb⟩ := h
   injection hb with hb; injection hb with hb
   subst hb
   have hhd' : decodeHeader rh = .ok hd := by
@@ -226,9 +226,16 @@ theorem full_reencode (c : Ctx) (r : BlockRaw) (b : Block) (h : fullFromRaw c r 
     · rename_i hl; injection hbh with hbh; subst hbh; exact hl
     · cases hbh
   subst e5
-  simp only [fullFromRaw, Block.toRaw, hbh', if_true, liftE, andThen, optField, encode_decodeProof tp w3,
-    encode_decodeProof ip w4, mapErr, e1, hhd', Except.mapError, rts_reencode _ rts hrts, imCollect_idem,
-    h1, h2, h3, guardV, huch, e6, heci]
+  have m1 : mapErr Err.txsProof (decodeProof (encodeProof tp)) = .value (.ok tp) := by
+    rw [encode_decodeProof tp w3]; rfl
+  have m2 : mapErr Err.idsProof (decodeProof (encodeProof ip)) = .value (.ok ip) := by
+    rw [encode_decodeProof ip w4]; rfl
+  have m3 : mapErr Err.rollupTxs (mapM' decodeRt ((imCollect rts).map Rt.toRaw)) = .value (.ok (imCollect rts)) := by
+    rw [rts_reencode _ rts hrts]; rfl
+  have m5 : mapErr Err.eci (decodeEciOpt c hd.dataHash (eci.map Eci.toRaw)) = .value (.ok eci) := by
+    rw [e6, heci]; rfl
+  simp only [fullFromRaw, Block.toRaw, hbh', if_true, liftE, andThen, optField, m1, m2, m3, m5, e1, hhd',
+    Except.mapError, imCollect_idem, h1, h2, h3, h4, guardV, huch]
 
 /-- **Filtered block**: likewise. -/
 theorem filtered_reencode (c : Ctx) (r : FilteredRaw) (f : Filtered) (h : filteredFromRaw c r = .value (.ok f)) :
